@@ -30,6 +30,13 @@ TRUSTED = ['mutation primitives of CPython and the fault classes of harness/prop
 ASSUMPTIONS = ['default registry (no user registrations): C13 covers registration', 'PATH_STAR = True',
                '`**` destinations are skipped (enumeration order of `**` is C14)']
 
+# Probability of spelling the FIRST step of an S-rooted destination as `S.name` / `Path(S, name)` instead
+# of `S[name]`.  Reading such a path means the scope variable (`_s_first_magic`), but Assign / Delete
+# re-root the path at T and do getattr / setattr on the ChainMap object: `glom({}, (Assign(S.a, 5), S.a))`
+# raises PathAccessError on the read-back (reported as a potential genuine defect; classify() below
+# recognises exactly that shape as `s_first_plain`).  0.0 until it is repaired or recorded as known.
+S_FIRST_PLAIN_P = 0.0
+
 MISSING = [None] * 8 + ['dict'] * 5 + ['list', 'obj', 'obj', 'raise']
 
 
@@ -51,6 +58,40 @@ def gen_value(rng, heap, root):
     return {'t': steps}
 
 
+def s_first(rng, sp):
+    """the first step of an S-rooted path in `S[name]` spelling (see S_FIRST_PLAIN_P)"""
+    parts = sp.get('parts')
+    if not parts:
+        return sp
+    first = parts[0]
+    key = first['seg'] if 'seg' in first else (first['t'][0][1] if first.get('t') else None)
+    rest = [] if 'seg' in first else first['t'][1:]
+    if 'seg' not in first and not first.get('t'):
+        return sp
+    if rng.random() < S_FIRST_PLAIN_P:
+        if isinstance(key, dict) and 's' in key and rng.random() < 0.5 and 'seg' not in first:
+            new = {'t': [['.', key]] + rest}
+        elif 'seg' in first or not rest:
+            new = {'seg': key}
+        else:
+            new = first
+    elif 'seg' in first:
+        new = {'t': [['[', key]]}
+    else:
+        new = {'t': [['[' if first['t'][0][0] in ('.', 'P') else first['t'][0][0], key]] + rest}
+    return {'parts': [new] + parts[1:]}
+
+
+def gen_readback(rng, steps, style, p, sroot=False):
+    """chain mode: `(Assign(dest, …), <peek>, readPath)` — a later step of the same chain reads the
+    destination path (or a non-empty prefix of it) back, from the same root, in the same spelling"""
+    if rng.random() >= p or not steps:
+        return None
+    n = len(steps) if rng.random() < 0.6 else rng.randint(1, len(steps))
+    sp = M.spell(rng, steps[:n], style)
+    return {'spelling': s_first(rng, sp) if sroot else sp}
+
+
 def one_case(rng, tier, classes, cflags, force=None):
     force = force or {}
     if rng.random() < force.get('deep_star_p', 0.04):
@@ -59,6 +100,7 @@ def one_case(rng, tier, classes, cflags, force=None):
         return {'classes': classes, 'cflags': [f for f in cflags if f[0] != 'Scope'], 'heap': heap,
                 'target': root, 'scope': None, 'root': 'T', 'spelling': M.spell(rng, steps, style),
                 'style': style, 'value': {'lit': M.jval(rng.choice([42, 'new', None]))}, 'missing': rng.choice([None, None, 'dict']),
+                'readback': gen_readback(rng, steps, style, force.get('chain_p', 0.3)),
                 'api': rng.choice(['assign', 'Assign'])}
     maxlen = 5 if tier == 'quick' else 8
     heap, root = M.gen_target(rng, rng.choice([2, 3, 4]))
@@ -79,18 +121,22 @@ def one_case(rng, tier, classes, cflags, force=None):
     # (an S-rooted destination whose absent tail starts with `*` would enumerate — and write into —
     # glom's own scope maps, including the process-global default scope: never generated)
     steps = M.gen_dest(rng, heap, start, maxlen, want_present=rng.random() < 0.5, absent_tail=absent,
-                       star_p=0 if (sroot and missing) else force.get('star_p', 0.15))
+                       star_p=0 if (sroot and missing) else force.get('star_p', 0.15),
+                       first_absent_p=0.4 if sroot else 0.15)
     if sroot and steps and steps[0][0] != 'key':
         steps[0] = ('key', {'s': 'd'})
     if rng.random() < force.get('mut_p', 0.25):
         steps = M.mutate_dest(rng, steps)
     style = M.choose_style(rng, steps, sroot)
     sp = M.spell(rng, steps, style)
+    if sroot:
+        sp = s_first(rng, sp)
     if scope is None:
         cflags = [f for f in cflags if f[0] != 'Scope']
     return {'classes': classes, 'cflags': cflags, 'heap': heap, 'target': root, 'scope': scope,
             'root': 'S' if sroot else 'T', 'spelling': sp, 'style': style,
             'value': gen_value(rng, heap, root), 'missing': missing,
+            'readback': gen_readback(rng, steps, style, force.get('chain_p', 0.75 if sroot else 0.3), sroot),
             'warmup': rng.choice([1, 2, 2]) if rng.random() < force.get('warm_p', 0.15) else 0,
             'api': rng.choice(['assign', 'Assign'])}
 
@@ -150,13 +196,18 @@ class Factory:
 
 def run_impl(case):
     import glom
-    from glom import Assign
+    from glom import Assign, Path
     objs, dv = M.decode(case['heap'])
     enc = M.Encoder(objs, case['heap'])
     target = dv(case['target'])
     kwargs = {}
+    frame_obj = caller = caller_before = None
     if case.get('scope') is not None:
-        kwargs['scope'] = dv(case['scope'])
+        # the Scope cell stands for the scope FRAME; the mapping handed to glom is a dict of its own
+        frame_obj = dv(case['scope'])
+        caller = dict(frame_obj)
+        caller_before = list(caller.items())
+        kwargs['scope'] = caller
     v = case['value']
     if 'lit' in v:
         val = dv(v['lit'])
@@ -169,31 +220,73 @@ def run_impl(case):
     out = dict(case)
     default_map = glom.core._DEFAULT_SCOPE.maps[0]
     default_keys = set(default_map)
+    rb = case.get('readback')
+    peek = None
+    if rb:
+        M.Peek.baseline()
+        peek = M.Peek(own=(caller or {}))
+    read = None
+    read_val = None
     try:
         path = M.build_path(case, dv)
-        if case.get('api') == 'assign' and not kwargs and not case.get('warmup'):
+        if case.get('api') == 'assign' and not kwargs and not case.get('warmup') and not rb:
             res = glom.assign(target, path, val, missing=fac)
         else:
             spec = Assign(path, val, missing=fac)
             M.warm_up(case, spec, fac)       # the same spec object, used on other targets before
-            res = glom.glom(target, spec, **kwargs)
+            if rb:
+                rpath = M.build_path({'spelling': rb['spelling'], 'root': case.get('root'),
+                                      'style': case.get('style')}, dv)
+                if isinstance(rpath, str):
+                    rpath = Path.from_text(rpath)
+                read_val = glom.glom(target, (spec, peek, rpath), **kwargs)
+                res = peek.got
+            else:
+                res = glom.glom(target, spec, **kwargs)
     except Exception as e:
-        r = M.observe_exc(e)
+        if peek is not None and peek.seen:
+            # the Assign returned; the read-back step raised
+            a = enc.ids.get(id(peek.got))
+            r = {'ok': {'r': a} if a is not None and enc.is_container(peek.got)
+                 else pyobjs.enc_val(peek.got, lambda x: None)}
+            read = M.observe_exc(e)
+        else:
+            r = M.observe_exc(e)
+            read = 'notrun' if rb else None
     else:
         a = enc.ids.get(id(res))
         r = {'ok': {'r': a} if a is not None and enc.is_container(res) else pyobjs.enc_val(res, lambda x: None)}
+        if rb:
+            read = 'pending'
     for k in set(default_map) - default_keys:     # keep the process-global default scope clean
         del default_map[k]
     if fac:
         for o in fac.made:
             enc.reserve(o)
+    frame_seen = bool(peek is not None and peek.seen and frame_obj is not None)
+    if frame_seen:
+        # what a later step of the chain sees of the scope: the frame the Scope cell stands for
+        frame_obj.clear()
+        for k, x in peek.vars:
+            frame_obj[k] = x
     heap = enc.snapshot()
-    out['impl'] = {'res': r, 'heap': heap, 'calls': fac.calls if fac else 0, 'hidden': enc.hidden()}
+    if read == 'pending':
+        nstars = sum(1 for op, _ in M.steps_of_spelling(rb['spelling']) if op in ('x', 'X'))
+        read = {'ok': M.enc_nest(read_val, nstars, enc)}
+    scope_kept = True
+    if caller is not None:
+        now = list(caller.items())
+        scope_kept = (len(now) == len(caller_before) and
+                      all(k1 is k0 or (type(k1) is type(k0) and k1 == k0) for (k0, _), (k1, _) in zip(caller_before, now))
+                      and all(x1 is x0 for (_, x0), (_, x1) in zip(caller_before, now)))
+    out['impl'] = {'res': r, 'heap': heap, 'calls': fac.calls if fac else 0, 'hidden': enc.hidden(),
+                   'read': read, 'frame_seen': frame_seen, 'scope_kept': scope_kept}
     return out
 
 
 def key(case):
-    return {k: case.get(k) for k in ('heap', 'target', 'scope', 'root', 'spelling', 'style', 'value', 'missing', 'warmup')}
+    return {k: case.get(k) for k in ('heap', 'target', 'scope', 'root', 'spelling', 'style', 'value', 'missing',
+                                     'warmup', 'readback')}
 
 
 def nontrivial(case, verdict):
@@ -214,6 +307,28 @@ def shrink(case):
     if case.get('warmup'):
         c = dict(base); c['warmup'] = case['warmup'] - 1
         yield c
+    rb = case.get('readback')
+    if rb:
+        c = dict(base); c['readback'] = None
+        yield c
+        sp = rb['spelling']
+        if 'parts' in sp and len(sp['parts']) > 1:
+            c = dict(base); c['readback'] = {'spelling': {'parts': sp['parts'][:-1]}}
+            yield c
+        elif 'text' in sp and '.' in sp['text']:
+            c = dict(base); c['readback'] = {'spelling': {'text': sp['text'].rsplit('.', 1)[0]}}
+            yield c
+
+
+def classify(case, verdict):
+    """known-finding classifiers (KNOWN_FINDINGS.txt): `s_first_plain` — an S-rooted destination whose
+    first step is spelled S.name / Path(S, name): Assign does setattr on the ChainMap object"""
+    if case.get('root') == 'S':
+        for sp in [case['spelling']] + ([case['readback']['spelling']] if case.get('readback') else []):
+            st = M.steps_of_spelling(sp)
+            if st and st[0][0] in ('.', 'P'):
+                return 's_first_plain'
+    return None
 
 
 def focus(disagreements, facts_changed):
@@ -225,6 +340,8 @@ def focus(disagreements, facts_changed):
         f['missing'] = 'dict'
     if any(c.get('root') == 'S' for c, _ in disagreements):
         f['sroot'] = True
+    if any(c.get('readback') for c, _ in disagreements):
+        f['chain_p'] = 0.9
     if disagreements and all(c.get('missing') for c, _ in disagreements):
         f['missing'] = 'dict'
     if any('x' in json.dumps(c['spelling']) for c, _ in disagreements):
